@@ -232,7 +232,7 @@ Proof. intros T Hs. destruct used as [| s u]; [reflexivity |].
 Lemma committed_intact cp prods s : committed cp prods s -> is_rec s = true ->
   s_owner s = 0 \/ exists i ps, s_owner s = Z.of_nat (S i) /\ nth_error prods i = Some ps /\
                        0 <= s_seq s /\ nth_error (p_prog ps) (Z.to_nat (s_seq s)) = Some (s_type s, s_body s).
-Proof. intros (_ & [(A & B & C & D & E) | [(A & _) | (i & ps & A & B & C & D & _)]]) Hr.
+Proof. intros (_ & [(A & B & E) | [(A & _) | (i & ps & A & B & C & D & _)]]) Hr.
   - unfold is_rec in Hr. lia.
   - left. assumption.
   - right. exists i, ps. auto. Qed.
